@@ -1,3 +1,4 @@
+import BS.Lemmas.Lift
 import BS.Lemmas.EncBlock
 /-
   C03 — the L2 reference decoders accept exactly the Bitcoin wire encodings.
@@ -320,5 +321,45 @@ example : (decTransaction ⟨10, encTx exSegwit ++ [9, 9]⟩).res =
 
 example : (decTxIn ⟨3, encTxIn ⟨⟨List.replicate 32 7, 5⟩, [1, 2, 3], 9⟩ ++ [1]⟩) =
     .ok (viewTxIn 3 ⟨⟨List.replicate 32 7, 5⟩, [1, 2, 3], 9⟩, ⟨3 + 44, [1]⟩) := by decide
+
+/-! ## L1 corollaries (generated by tools/genlift.py) -/
+section L1
+open BS.Ref BS.Lift
+
+/-- soundness for the model of the code, under every visitor: whatever `Transaction::visit` accepts begins with the
+    encoding of a well-formed transaction, consumes exactly that encoding, and the object is the view of that value -/
+theorem C03_L1_sound_transaction {σ : Type} {s : Slice} (hs : s.len < 2 ^ 62) {v : Visitor σ} {st st' : σ} {o : TxV} {rem : Slice}
+    (h : Transaction.visit s v st = (st', .ok (o, rem))) :
+    ∃ t : TxS, t.WF ∧ s.bytes = encTx t ++ rem.bytes ∧ rem.base = s.base + (encTx t).length ∧ o = viewTx s.base t :=
+  C03_sound_transaction (ok_of_sim (fun v st => refine_transaction s hs v st) h)
+
+/-- completeness for the model of the code: every encoding of a well-formed transaction, followed by anything, parses -/
+theorem C03_L1_complete_transaction (b : Nat) (t : TxS) (r : Bytes) (ht : t.WF) (hl : (encTx t ++ r).length < 2 ^ 62) :
+    parseOf (Transaction.visit ⟨b, encTx t ++ r⟩) = .ok (viewTx b t, ⟨b + (encTx t).length, r⟩) := by
+  rw [parseOf_transaction _ (by simpa [Slice.len] using hl)]; exact C03_complete_transaction b t r ht
+
+theorem C03_L1_sound_block {σ : Type} {s : Slice} (hs : s.len < 2 ^ 62) {v : Visitor σ} {st st' : σ} {o : BlockV} {rem : Slice}
+    (h : Block.visit s v st = (st', .ok (o, rem))) :
+    ∃ k : BlockS, k.WF ∧ s.bytes = encBlock k ++ rem.bytes ∧ rem.base = s.base + (encBlock k).length ∧ o = viewBlock s.base k :=
+  C03_sound_block (ok_of_sim (fun v st => refine_block s hs v st) h)
+
+theorem C03_L1_complete_block (b : Nat) (k : BlockS) (r : Bytes) (hk : k.WF) (hl : (encBlock k ++ r).length < 2 ^ 62) :
+    parseOf (Block.visit ⟨b, encBlock k ++ r⟩) = .ok (viewBlock b k, ⟨b + (encBlock k).length, r⟩) := by
+  rw [parseOf_block _ (by simpa [Slice.len] using hl)]; exact C03_complete_block b k r hk
+
+/-- accept iff: the model of the code accepts a slice exactly when it begins with a well-formed encoding -/
+theorem C03_L1_accepts_iff_transaction (s : Slice) (hs : s.len < 2 ^ 62) :
+    (∃ o rem, parseOf (Transaction.visit s) = .ok (o, rem)) ↔ ∃ (t : TxS) (r : Bytes), t.WF ∧ s.bytes = encTx t ++ r := by
+  rw [parseOf_transaction s hs]
+  constructor
+  · rintro ⟨o, rem, h⟩
+    obtain ⟨t, ht, hb, _, _⟩ := C03_sound_transaction h
+    exact ⟨t, rem.bytes, ht, hb⟩
+  · rintro ⟨t, r, ht, hb⟩
+    obtain ⟨b, bs⟩ := s
+    simp only at hb; subst hb
+    exact ⟨_, _, C03_complete_transaction b t r ht⟩
+
+end L1
 
 end BS
